@@ -633,10 +633,13 @@ func genC39Stream(t *rapid.T) c39Stream {
 
 type c39Op struct {
 	Kind    string `json:"kind"`
-	Dir     int    `json:"dir"`      // direction: writer end = Dir, reader end = 1-Dir
-	N       int    `json:"n"`        // write length / read buffer size / extra bytes beyond the free space
-	DMS     int    `json:"dms"`      // deadline, milliseconds from now (<= 0: already expired)
-	PauseUS int    `json:"pause_us"` // delay between starting the blocked call and the releasing action
+	Dir     int    `json:"dir"`            // direction: writer end = Dir, reader end = 1-Dir
+	N       int    `json:"n"`              // write length / read buffer size / extra bytes beyond the free space
+	DMS     int    `json:"dms"`            // deadline kind "future": milliseconds from now
+	When    string `json:"when,omitempty"` // deadline probes: "before" the call starts | while the call is "blocked" (set from the driver after pause_us)
+	DL      string `json:"dl,omitempty"`   // deadline probes: future | now | past-1ms | past-1h | cleared | cleared-after-1h
+	Both    bool   `json:"both,omitempty"` // deadline probes: use SetDeadline instead of SetReadDeadline / SetWriteDeadline
+	PauseUS int    `json:"pause_us"`       // delay between starting the blocked call and the releasing action
 	End     int    `json:"end"`
 }
 
@@ -711,15 +714,23 @@ func genC39Script(t *rapid.T) c39Script {
 		case "RALL":
 			op.N = rapid.IntRange(1, 70).Draw(t, "rn")
 			avail[d] = 0
-		case "RT":
-			op.N = rapid.IntRange(1, 16).Draw(t, "rn")
-			op.DMS = rapid.OneOf(rapid.IntRange(1, 5), rapid.IntRange(-1, 20)).Draw(t, "dms")
+		case "RT", "WT":
+			// deadline probe: {set before the call, set while the call is blocked} x
+			// {future, exactly now, in the past, cleared} x {read, write}
+			if op.Kind == "RT" {
+				op.N = rapid.IntRange(1, 16).Draw(t, "rn")
+			} else {
+				op.N = rapid.IntRange(1, 40).Draw(t, "extra")
+			}
+			op.When = rapid.SampledFrom([]string{"before", "blocked", "blocked"}).Draw(t, "when")
+			op.DL = rapid.SampledFrom([]string{"future", "future", "now", "now", "past-1ms", "past-1h", "cleared", "cleared-after-1h"}).Draw(t, "dl")
+			if op.DL == "future" {
+				op.DMS = rapid.OneOf(rapid.IntRange(1, 5), rapid.IntRange(1, 20)).Draw(t, "dms")
+			}
+			op.Both = rapid.IntRange(0, 3).Draw(t, "both") == 0
+			op.PauseUS = rapid.OneOf(rapid.Just(0), rapid.IntRange(0, 100), rapid.IntRange(200, 1500)).Draw(t, "pause")
 			probes++
-		case "WT":
-			op.N = rapid.IntRange(1, 40).Draw(t, "extra")
-			op.DMS = rapid.OneOf(rapid.IntRange(1, 5), rapid.IntRange(-1, 20)).Draw(t, "dms")
-			probes++
-			avail[d] = 0 // executor drains after the probe
+			avail[d] = 0 // the executor leaves the direction empty after the probe
 		case "BRPC", "BROC", "BWPC", "BWOC":
 			op.N = rapid.IntRange(1, 40).Draw(t, "n")
 			op.PauseUS = rapid.OneOf(rapid.Just(0), rapid.IntRange(0, 100), rapid.IntRange(0, 1500)).Draw(t, "pause")
@@ -746,6 +757,16 @@ func genC39Script(t *rapid.T) c39Script {
 		s.Ops = append(s.Ops, op)
 	}
 	return s
+}
+
+func dlClass(dl string) string {
+	switch dl {
+	case "future":
+		return "future"
+	case "now":
+		return "now"
+	}
+	return "past"
 }
 
 func runC39Script(s c39Script) c39Run {
@@ -783,9 +804,11 @@ func runC39Script(s c39Script) c39Run {
 		drainByDeadline := func(d int) ([]byte, error) {
 			e := ends[1-d]
 			var out []byte
+			// one deadline for the whole drain (queued data is returned even after it has
+			// passed; re-arming per read could race a firing timer)
+			e.setRD(3 * time.Millisecond)
 			for {
-				e.setRD(2 * time.Millisecond)
-				st.set("driver", fmt.Sprintf("%s.Read (drain, 2ms deadline)", e.name))
+				st.set("driver", fmt.Sprintf("%s.Read (drain, 3ms deadline)", e.name))
 				n, err := e.c.Read(buf[:64])
 				st.set("driver", "")
 				out = append(out, buf[:n]...)
@@ -885,49 +908,166 @@ func runC39Script(s c39Script) c39Run {
 					return fail("no-eof-after-writer-closed", "%s: writer end closed, pipe empty, Read returned (%d, %v)", ctx, got, err)
 				}
 				label["script:eof"] = true
-			case "RT":
-				if v := drainModel(d, ctx); v != nil {
-					res.viols = append(res.viols, *v)
-					return res
+			case "RT", "WT":
+				isRead := op.Kind == "RT"
+				target := we // the end whose call is probed
+				if isRead {
+					target = re
+					if v := drainModel(d, ctx); v != nil {
+						res.viols = append(res.viols, *v)
+						return res
+					}
 				}
-				re.setRD(time.Duration(op.DMS) * time.Millisecond)
-				st.set("driver", ctx)
-				got, err := re.c.Read(buf[:op.N])
-				st.set("driver", "")
-				re.clearRD()
-				if got != 0 || !c39IsTimeout(err) {
-					return fail("deadline-did-not-time-out-read", "%s: Read on an empty pipe with a %d ms deadline returned (%d, %v)", ctx, op.DMS, got, err)
+				cleared := op.DL == "cleared" || op.DL == "cleared-after-1h"
+				apply := func(tm time.Time) {
+					switch {
+					case op.Both:
+						if !tm.IsZero() {
+							target.readDLArmed.Store(true)
+							target.writeDLArmed.Store(true)
+						}
+						target.c.SetDeadline(tm)
+					case isRead:
+						if !tm.IsZero() {
+							target.readDLArmed.Store(true)
+						}
+						target.c.SetReadDeadline(tm)
+					default:
+						if !tm.IsZero() {
+							target.writeDLArmed.Store(true)
+						}
+						target.c.SetWriteDeadline(tm)
+					}
 				}
-				label["script:read-deadline"] = true
-				res.nontriv = true
-			case "WT":
+				setDL := func() {
+					switch op.DL {
+					case "future":
+						apply(time.Now().Add(time.Duration(op.DMS) * time.Millisecond))
+					case "now":
+						apply(time.Now())
+					case "past-1ms":
+						apply(time.Now().Add(-time.Millisecond))
+					case "past-1h":
+						apply(time.Now().Add(-time.Hour))
+					case "cleared-after-1h":
+						apply(time.Now().Add(time.Hour))
+						apply(time.Time{})
+					case "cleared":
+						apply(time.Time{})
+					}
+				}
+				what := fmt.Sprintf("%s, deadline %s set %s the call (pause %d us, SetDeadline=%v)", ctx, op.DL, op.When, op.PauseUS, op.Both)
+				type callRes struct {
+					n   int
+					err error
+				}
+				ch := make(chan callRes, 1)
+				var data []byte
 				free := s.Buf - len(m.q[d])
-				data := c39Data(d, m.off[d], free+op.N)
-				m.off[d] += len(data)
-				we.setWD(time.Duration(op.DMS) * time.Millisecond)
-				st.set("driver", ctx)
-				got, err := we.c.Write(data)
-				st.set("driver", "")
-				we.clearWD()
-				if !c39IsTimeout(err) {
-					return fail("deadline-did-not-time-out-write", "%s: Write(%d bytes) with %d bytes free and a %d ms deadline returned (%d, %v)", ctx, len(data), free, op.DMS, got, err)
+				rb := make([]byte, op.N)
+				if !isRead {
+					data = c39Data(d, m.off[d], free+op.N)
+					m.off[d] += len(data)
 				}
-				have, derr := drainByDeadline(d)
-				if derr != nil {
-					return fail("read-failed-with-data-queued", "%s: draining after the timed-out write failed: %v", ctx, derr)
+				if op.When == "before" {
+					setDL()
 				}
-				j, ok := prefixOK(have, m.q[d], data)
-				if !ok {
-					return fail("bytes-differ-from-written", "%s: after a timed-out write the pipe held %x, expected %x followed by a prefix of %x", ctx, have, m.q[d], data)
+				go func() {
+					var r callRes
+					if isRead {
+						r.n, r.err = target.c.Read(rb)
+					} else {
+						r.n, r.err = target.c.Write(data)
+					}
+					ch <- r
+				}()
+				st.set("driver", what+": call started, waiting for it to return")
+				pause(0, op.PauseUS)
+				if op.When == "blocked" {
+					setDL()
 				}
-				if j == free {
-					res.notes["timed_out_write_delivered_exactly_free_space"]++
-				} else {
-					res.notes["timed_out_write_delivered_other_prefix"]++
+				switch {
+				case cleared && isRead:
+					// no deadline: only data may release the read
+					k := 1 + op.N%s.Buf
+					rel := c39Data(d, m.off[d], k)
+					m.off[d] += k
+					if n, err := we.c.Write(rel); err != nil || n != k {
+						return fail("write-failed-on-open-stream", "%s: releasing Write(%d bytes) into an empty pipe returned (%d, %v)", what, k, n, err)
+					}
+					written[d] += k
+					r := <-ch
+					st.set("driver", "")
+					if c39IsTimeout(r.err) {
+						return fail("cleared-deadline-timed-out", "%s: Read returned (%d, %v) although the deadline had been cleared", what, r.n, r.err)
+					}
+					if r.err != nil || r.n < 1 || r.n > k || !bytes.Equal(rb[:r.n], rel[:r.n]) {
+						return fail("bytes-differ-from-written", "%s: blocked Read released by Write(%x) returned (%d, %v) %x", what, rel, r.n, r.err, rb[:max(r.n, 0)])
+					}
+					m.q[d] = append([]byte{}, rel[r.n:]...)
+					if v := drainModel(d, ctx); v != nil {
+						res.viols = append(res.viols, *v)
+						return res
+					}
+					label["script:read-deadline-cleared:"+op.When] = true
+				case cleared:
+					// no deadline: only free space may release the write
+					stream := append(append([]byte{}, m.q[d]...), data...)
+					consumed := 0
+					for consumed < op.N { // op.N bytes beyond the free space
+						got, err := readOnce(re, 64, what+": making room")
+						if err != nil || got < 1 || consumed+got > len(stream) || !bytes.Equal(buf[:got], stream[consumed:consumed+got]) {
+							return fail("bytes-differ-from-written", "%s: Read while making room returned (%d, %v) %x, expected a prefix of %x", what, got, err, buf[:max(got, 0)], stream[consumed:])
+						}
+						consumed += got
+					}
+					r := <-ch
+					st.set("driver", "")
+					if c39IsTimeout(r.err) {
+						return fail("cleared-deadline-timed-out", "%s: Write returned (%d, %v) although the deadline had been cleared", what, r.n, r.err)
+					}
+					if r.err != nil || r.n != len(data) {
+						return fail("write-failed-on-open-stream", "%s: blocked Write(%d bytes) returned (%d, %v) after %d bytes were read", what, len(data), r.n, r.err, consumed)
+					}
+					written[d] += len(data)
+					m.q[d] = stream[consumed:]
+					if v := drainModel(d, ctx); v != nil {
+						res.viols = append(res.viols, *v)
+						return res
+					}
+					label["script:write-deadline-cleared:"+op.When] = true
+				case isRead:
+					r := <-ch
+					st.set("driver", "")
+					apply(time.Time{})
+					if r.n != 0 || !c39IsTimeout(r.err) {
+						return fail("deadline-did-not-time-out-read", "%s: Read on an empty pipe returned (%d, %v)", what, r.n, r.err)
+					}
+					label["script:read-deadline:"+op.When+":"+dlClass(op.DL)] = true
+				default:
+					r := <-ch
+					st.set("driver", "")
+					apply(time.Time{})
+					if !c39IsTimeout(r.err) {
+						return fail("deadline-did-not-time-out-write", "%s: Write(%d bytes) with %d bytes free returned (%d, %v)", what, len(data), free, r.n, r.err)
+					}
+					have, derr := drainByDeadline(d)
+					if derr != nil {
+						return fail("read-failed-with-data-queued", "%s: draining after the timed-out write failed: %v", what, derr)
+					}
+					j, ok := prefixOK(have, m.q[d], data)
+					if !ok {
+						return fail("bytes-differ-from-written", "%s: after a timed-out write the pipe held %x, expected %x followed by a prefix of %x", what, have, m.q[d], data)
+					}
+					if j == free {
+						res.notes["timed_out_write_delivered_exactly_free_space"]++
+					} else {
+						res.notes["timed_out_write_delivered_other_prefix"]++
+					}
+					m.q[d] = nil
+					written[d] += j
+					label["script:write-deadline:"+op.When+":"+dlClass(op.DL)] = true
 				}
-				m.q[d] = nil
-				written[d] += j
-				label["script:write-deadline"] = true
 				res.nontriv = true
 			case "BRPC", "BROC":
 				if v := drainModel(d, ctx); v != nil {
@@ -1123,7 +1263,7 @@ func (c c39Case) run() c39Run {
 
 func TestC39(t *testing.T) {
 	rec := ev.New(t, "C39")
-	rec.Rule("rapid-generated cases of two kinds on bufconn.BufferedPipe(1..64). stream: a writer and a reader goroutine per end, 0..12 chunks of 1..200 bytes each way, cycled read sizes 0..96, Gosched/sleep yields, optional 1..20 ms deadlines on calls (timed-out calls are retried), close plan = orderly (one end closes after sending everything and receiving everything, the other on EOF) or abrupt (each end closed by its writer after k writes / its reader after N bytes / a timer). script: a single goroutine runs 3..40 model-legal steps (write <= free space, read with data queued, read at EOF, calls on closed ends) with up to 3 blocking probes (read on empty pipe or write beyond free space, released by a deadline, by the peer's Close or by the own end's Close from another goroutine). Oracle: position-set automaton (stream) / exact FIFO model (script); EOF only after every successfully written byte; calls on a closed end fail; blocked calls return timeout / EOF / error. Non-trivial: some direction carried more bytes than the buffer holds, or a write was cut by a close or deadline, or a blocking probe ran. Distinct = distinct generated programmes.")
+	rec.Rule("rapid-generated cases of two kinds on bufconn.BufferedPipe(1..64). stream: a writer and a reader goroutine per end, 0..12 chunks of 1..200 bytes each way, cycled read sizes 0..96, Gosched/sleep yields, optional 1..20 ms deadlines on calls (timed-out calls are retried), close plan = orderly (one end closes after sending everything and receiving everything, the other on EOF) or abrupt (each end closed by its writer after k writes / its reader after N bytes / a timer). script: a single goroutine runs 3..40 model-legal steps (write <= free space, read with data queued, read at EOF, calls on closed ends) with up to 3 blocking probes (read on empty pipe or write beyond free space, released by a deadline, by the peer's Close or by the own end's Close from another goroutine). Deadline probes span {set before the call, set from another goroutine while the call is blocked} x {1..20 ms in the future, exactly now, 1 ms / 1 h in the past, cleared (zero time, optionally after a 1 h deadline)} x {read, write} x {SetRead/WriteDeadline, SetDeadline}: a non-zero deadline must end the call with a timeout error, a cleared one must leave it blocked until data / free space releases it. Oracle: position-set automaton (stream) / exact FIFO model (script); EOF only after every successfully written byte; calls on a closed end fail; blocked calls return timeout / EOF / error. Non-trivial: some direction carried more bytes than the buffer holds, or a write was cut by a close or deadline, or a blocking probe ran. Distinct = distinct generated programmes.")
 	rec.Assume("one reader goroutine and one writer goroutine per end (plus a closer); concurrent readers on the same end are out of scope",
 		"a failed Write may have delivered any prefix of its data (the implementation reports n=0), as DESIGN.md C39 allows",
 		"zero-length writes on a closed end are outside the domain (they return nil; counted as an observation)",
